@@ -72,8 +72,10 @@ def apply_curation(spike_templates, ops):
     return sc
 
 
+_merge_op = st.fixed_dictionaries({'op': st.just('merge'), 'a': st.integers(0, 9),
+                                   'b': st.integers(0, 9)})
 _curation_op = st.one_of(
-    st.fixed_dictionaries({'op': st.just('merge'), 'a': st.integers(0, 9), 'b': st.integers(0, 9)}),
+    _merge_op, _merge_op,
     st.fixed_dictionaries({'op': st.just('split'), 'a': st.integers(0, 9), 'cut': st.integers(0, 9),
                            'interleave': st.booleans()}),
     st.fixed_dictionaries({'op': st.just('reassign'), 'i': st.integers(0, 99),
@@ -130,7 +132,8 @@ def dataset_spec(draw, naming=None, dense=None, raw=None, curated=None, features
             'seed': draw(st.integers(0, 10 ** 6))}
     # spikes
     spec['samples'] = sorted(draw(st.lists(st.integers(0, n_raw - 1), min_size=ns, max_size=ns)))
-    used = draw(st.lists(st.integers(0, nt - 1), min_size=1, max_size=nt, unique=True))
+    nused = draw(st.sampled_from([1] + list(range(2, nt + 1)) * 3))
+    used = draw(st.lists(st.integers(0, nt - 1), min_size=nused, max_size=nused, unique=True))
     spec['spike_templates'] = [used[i % len(used)] for i in
                                draw(st.lists(st.integers(0, 50), min_size=ns, max_size=ns))]
     cur = _opt(draw, curated, st.booleans())
